@@ -49,6 +49,7 @@ Section NonRtc.
       - intros c0 r _. exact I.
       - intros c0 kk act g cb ev src tgt st tag K. simpl in *. exact K.
       - exact nested_ok.
+      - left; ghost.
       - ghost.
       - ghost.
     Qed.
@@ -65,6 +66,7 @@ Section NonRtc.
       - intros c0 r _. exact I.
       - intros c0 kk act g cb ev src tgt st tag K. simpl in *. exact K.
       - exact nested_ok.
+      - left; ghost.
       - ghost.
       - ghost.
     Qed.
@@ -151,7 +153,7 @@ Proof.
     { apply (trigger_R beh (send_nonrtc beh rm f) rm stays_idle);
         [apply stays_idle_refl | apply stays_idle_trans | intros; split; auto | intros; split; auto
         | intros; split; auto | intros; split; auto | intros; split; auto | intros; split; auto
-        | apply IH | intros; split; auto]. }
+        | apply IH | left; intros; split; auto | intros; split; auto]. }
     assert (E : queue c = [] -> q = []).
     { intros Z. rewrite Z in Q. simpl in Q. inversion Q. reflexivity. }
     destruct (trigger beh (send_nonrtc beh rm f) rm td0 (set_queue (enqueue td c) q)) as [c2 r|c2 x|];
